@@ -197,8 +197,21 @@ int main(int argc, char** argv) {
                    switch (r.below(8)) {
                      case 0: v.a.push_back(JVal::uint(r.next())); break;
                      case 1: v.a.push_back(JVal::sint((int64_t)r.next())); break;
-                     case 2: v.a.push_back(JVal::uint(r.coin() ? UINT64_MAX : (uint64_t)INT64_MAX + r.below(3))); break;
-                     case 3: v.a.push_back(JVal::sint(r.coin() ? INT64_MIN : -(int64_t)r.below(3))); break;
+                     case 2: {
+                       if (r.coin()) { v.a.push_back(JVal::uint(r.coin() ? UINT64_MAX : (uint64_t)INT64_MAX + r.below(3))); break; }
+                       uint64_t p = 1;  // powers of ten and two and their neighbours, as unsigned integers
+                       for (unsigned k = (unsigned)r.below(20); k; k--) p *= 10;
+                       if (r.below(3) == 0) p = 1ULL << r.below(64);
+                       v.a.push_back(JVal::uint(p + r.below(3) - 1));
+                       break;
+                     }
+                     case 3: {
+                       if (r.coin()) { v.a.push_back(JVal::sint(r.coin() ? INT64_MIN : -(int64_t)r.below(3))); break; }
+                       int64_t p = 1;  // ... and as negative integers
+                       for (unsigned k = (unsigned)r.below(19); k; k--) p *= 10;
+                       v.a.push_back(JVal::sint(-p - (int64_t)r.below(3) + 1 < 0 ? -p - (int64_t)r.below(3) + 1 : -p));
+                       break;
+                     }
                      case 4: {
                        uint64_t b;
                        do b = r.next(); while (((b >> 52) & 0x7ff) == 0x7ff);
